@@ -1,5 +1,6 @@
 //! Harness binary `h_mux <PROP> --seed S --tier T [--count N] [--replay F]`.
 //! One module per property (`cNN.rs`, `pub fn run(args: &hcore::Args, out: &mut hcore::Out)`).
+mod c24;
 mod c25;
 mod c26;
 
@@ -8,6 +9,7 @@ fn main() {
     hcore::quiet_panics();
     let mut out = hcore::Out::new();
     match args.prop.as_str() {
+        "C24" => c24::run(&args, &mut out),
         "C25" => c25::run(&args, &mut out),
         "C26" => c26::run(&args, &mut out),
         p => {
